@@ -177,6 +177,7 @@ func TestRoundTrip(t *testing.T) {
 		w.Put(e)
 	}
 	ctx := context.Background()
+	var scratch []byte
 	for i := 0; i < n; i++ {
 		if i > 0 && i%40 == 0 {
 			// a fresh database now and then: every put rewrites the whole file, so one ever-growing database
@@ -198,7 +199,19 @@ func TestRoundTrip(t *testing.T) {
 				cl.DeleteVersion(ctx, name, v2)
 			}
 		}
-		ver, err := cl.Put(ctx, name, val)
+		var ver api.SecretVersion
+		var err error
+		if i%4 == 2 {
+			// the in-process API, called by someone who reuses its buffer for the next value: what was put is what
+			// was in the buffer when Put was called
+			scratch = append(scratch[:0], val...)
+			ver, err = s.db.Put(db.Caller{Principal: audit.Principal{User: "harness"}, Permissions: allRules()}, name, scratch)
+			for k := range scratch {
+				scratch[k] = 'Z'
+			}
+		} else {
+			ver, err = cl.Put(ctx, name, val)
+		}
 		if err == nil {
 			err = cl.Activate(ctx, name, ver)
 		}
